@@ -12,6 +12,7 @@ fn main() {
     "o09_intern_across_collection" => intern_across_collection(n(2) != 0),
     "o05_4_marks_cleared" => collect_twice(0),
     "o05_4_temp_root_survives" => temp_root_survives(9),
+    "o09_intern_promoted_survives_nursery" => intern_promoted_survives_nursery(),
     "o05_5_inflight_obj_survives" => inflight_obj_survives(),
     "o05_5_inflight_alloc_survives" => inflight_alloc_survives(),
     other => { eprintln!("unknown contract {other}"); std::process::exit(2) },
